@@ -360,3 +360,20 @@ class Outcome:
         with open(os.path.join(EVID, self.pid + ".json"), "w") as f:
             json.dump(ev, f, indent=1)
         return rc
+
+
+def validate_chunks(module, events, workdir, name, chunk=8000, **kw):
+    """Validate a long trace in several TLC runs (JVM heap / JSON size); ids must be 1..n."""
+    verdicts = []
+    results = []
+    for k in range(0, len(events), chunk):
+        part = events[k:k + chunk]
+        path = os.path.join(workdir, f"{name}.{k // chunk}.ndjson")
+        write_ndjson(path, part)
+        v, acc, res = tlc_validate(module, path, **kw)
+        if not acc:
+            raise ToolError(f"{module}: trace chunk {k // chunk} not consumed")
+        verdicts += v
+        results.append(res)
+        os.remove(path)
+    return verdicts, results
